@@ -456,7 +456,13 @@ func (fv *FuncVerifier) merge(states []*State) *State {
 		out.vars[k] = n
 	}
 	// ghost variables
-	for name, v0 := range live[0].ghost {
+	var gnames []string
+	for name := range live[0].ghost {
+		gnames = append(gnames, name)
+	}
+	sort.Strings(gnames)
+	for _, name := range gnames {
+		v0 := live[0].ghost[name]
 		same := true
 		for _, s := range live[1:] {
 			if v, ok := s.ghost[name]; !ok || v.T != v0.T {
